@@ -13,3 +13,25 @@ meta("C07",
      "against a constant timer; (R07.5) actor handlers wait only on things the wait-for graph accounts for.",
      ["a numeric bound on the amount of server work per request"],
      ["tokio mpsc channels are FIFO and bounded as created; parking_lot locks are not re-entrant; select! polls all branches"])
+
+meta("C09",
+     "Provenance (backward slices over MIR, entering local callees and closures) of every field of every delivery mapping: pull "
+     "(PubsubMessage), push (PushPayloadMessage) and ingestion (TopicMessage::new call sites); write-set of TopicMessage fields and "
+     "mutable Arc access; uniqueness structure of MessageId (single constructor, operands = topic internal id and a counter "
+     "incremented per message, manager id counter only increasing, bit layout injective).",
+     ["byte equality of concrete payloads (clone/to_vec/encode are trusted to preserve values)", "counter wrap after 2^32 messages per topic"],
+     ["library calls are pure functions of their arguments for provenance purposes"])
+
+meta("C18",
+     "Writer/reader agreement of the resource-name grammar: every literal segment that Display writes must be compared by content "
+     "(starts_with / strip_prefix / == / find ...) in try_parse, not merely used through its length; the two name parsers must run the "
+     "same stages; names derive Eq/Hash over exactly two components and key the resource maps.",
+     ["minimum-length guard and emptiness of ids (string values)", "echo round-trip through trim_matches('/') (e.g. projects/p/topics/a/)"],
+     ["str library functions behave as documented"])
+
+meta("C05",
+     "Interval/partition analysis of the seconds->action guard (exactly <0 rejected, 0 nack, 1..599 identity, >=600 capped, casts lossless), "
+     "all-or-nothing batch parsing dominating the apply call, deadline = Instant::now() + N, and the tracker's replace-both / requeue rules "
+     "shared with C02/C01/C06.",
+     ["when the new deadline fires in wall-clock terms (C04's undecided part)"],
+     ["Duration::from_secs / Instant + Duration are monotone"])
